@@ -467,6 +467,12 @@ func checkVerbatim(w *World, r *Report, rule string, inits []*ssa.Function) {
 					v = x.X
 				case *ssa.UnOp:
 					v = x.X
+				case *ssa.IndexAddr:
+					v = x.X
+				case *ssa.Index:
+					v = x.X
+				case *ssa.Slice:
+					v = x.X
 				case *ssa.Alloc:
 					// the spill slot of the parameter
 					for _, ref := range *x.Referrers() {
@@ -514,8 +520,83 @@ func checkVerbatim(w *World, r *Report, rule string, inits []*ssa.Function) {
 			}
 			r.Bad(rule, fmt.Sprintf("%s: assignment to imported %s #%d", funcName(fn), name, n), w.Pos(fs.Store.Pos()), "InitGenesis assigns a field of the genesis data it imports (a default, a reset or a normalisation): a state exported by the running chain is not restored as it was")
 		}
+		// a record handed to a module function (a keeper setter) must not be modified there before it is stored: the
+		// callee's field stores into the parameter that receives genesis data (two call levels)
+		var modifiedIn func(h *ssa.Function, pi int, depth int) *FieldStore
+		modifiedIn = func(h *ssa.Function, pi int, depth int) *FieldStore {
+			if h == nil || h.Blocks == nil || pi >= len(h.Params) || !w.isProdFunc(h) || isGeneratedFile(w.FileOf(h.Pos())) {
+				return nil
+			}
+			prm := h.Params[pi]
+			isPrm := func(v ssa.Value) bool {
+				for i := 0; i < 6; i++ {
+					switch x := v.(type) {
+					case *ssa.Parameter:
+						return x == prm
+					case *ssa.FieldAddr:
+						v = x.X
+					case *ssa.Alloc:
+						for _, ref := range *x.Referrers() {
+							if st, ok := ref.(*ssa.Store); ok && st.Addr == ssa.Value(x) && st.Val == ssa.Value(prm) {
+								return true
+							}
+						}
+						return false
+					default:
+						return false
+					}
+				}
+				return false
+			}
+			for _, fs := range FieldStores(h) {
+				if isPrm(fs.FA.X) {
+					fs := fs
+					return &fs
+				}
+			}
+			if depth >= 2 {
+				return nil
+			}
+			for _, s2 := range w.CG().Sites[h] {
+				if s2.Static == nil || s2.Invoke {
+					continue
+				}
+				for j, a2 := range s2.Common().Args {
+					handed := a2 == ssa.Value(prm)
+					if u, ok := a2.(*ssa.UnOp); ok && u.Op == token.MUL {
+						if al, ok := u.X.(*ssa.Alloc); ok && isPrm(al) {
+							handed = true
+						}
+					}
+					if handed {
+						if fs := modifiedIn(s2.Static, j, depth+1); fs != nil {
+							return fs
+						}
+					}
+				}
+			}
+			return nil
+		}
+		for _, s2 := range w.CG().Sites[fn] {
+			if s2.Static == nil || s2.Invoke {
+				continue
+			}
+			for j, a2 := range s2.Common().Args {
+				if !fromGenesis(a2) {
+					continue
+				}
+				if fs := modifiedIn(s2.Static, j, 0); fs != nil {
+					n++
+					name := fs.Field
+					if fs.Struct != nil {
+						name = fs.Struct.Obj().Name() + "." + fs.Field
+					}
+					r.Bad(rule, fmt.Sprintf("%s: imported record handed to %s, which assigns %s", funcName(fn), funcName(s2.Static), name), w.Pos(s2.Instr.Pos()), "InitGenesis stores a genesis record through an operation that rewrites a field of it ("+w.Pos(fs.Store.Pos())+"): a state exported by the running chain is not restored as it was")
+				}
+			}
+		}
 		if n == 0 {
-			r.OK(rule, funcName(fn)+": genesis data is stored as given", w.Pos(fn.Pos()), "no field of the GenesisState parameter or of a copy of its parts is assigned")
+			r.OK(rule, funcName(fn)+": genesis data is stored as given", w.Pos(fn.Pos()), "no field of the GenesisState parameter or of a copy of its parts is assigned, here or in the functions the records are handed to")
 		}
 	}
 }
